@@ -207,6 +207,12 @@ func (c *HTTPHealthChecker) checkEndpoint(ctx context.Context, endpoint *domain.
 	result, err := c.healthClient.Check(ctx, endpoint)
 
 	oldStatus := endpoint.Status
+	// endpoint is a snapshot taken before the probe went out. A failed proxy attempt can
+	// mark the endpoint offline while the probe is in flight, so a recovery has to be
+	// judged against what the repository holds now, not against the snapshot.
+	if stored, ok := c.storedStatus(ctx, endpoint); ok {
+		oldStatus = stored
+	}
 	newStatus := result.Status
 	statusChanged := oldStatus != newStatus
 
@@ -274,6 +280,20 @@ func (c *HTTPHealthChecker) checkEndpoint(ctx context.Context, endpoint *domain.
 	}
 
 	c.logHealthCheckResult(endpoint, oldStatus, newStatus, statusChanged, result, nextInterval, err)
+}
+
+// storedStatus returns the status the repository currently holds for the endpoint
+func (c *HTTPHealthChecker) storedStatus(ctx context.Context, endpoint *domain.Endpoint) (domain.EndpointStatus, bool) {
+	endpoints, err := c.repository.GetAll(ctx)
+	if err != nil {
+		return "", false
+	}
+	for _, ep := range endpoints {
+		if ep.URLString == endpoint.URLString {
+			return ep.Status, true
+		}
+	}
+	return "", false
 }
 
 func (c *HTTPHealthChecker) logHealthCheckResult(
